@@ -1,7 +1,7 @@
+import Typegen.Basic
 /-! Probe: full L1 — model of `TypeResolver::parse_type_structure` and `type_to_string`,
     round trip on the CommaSafe fragment. -/
 namespace L
-abbrev Str := List Char
 
 /-! ### string primitives (Rust `str` API on `List Char`) -/
 def startsWith : Str → Str → Bool
